@@ -593,6 +593,7 @@ type k17LinRec struct {
 	Exact   bool    `json:"exact"`
 	Resid   int     `json:"resid"`   // bucket of max |A got - B|
 	TolOK   bool    `json:"tolOK"`   // BiCGSTAB: the mean absolute residual is below the requested tolerance
+	MaxIt   int     `json:"maxIt"`   // BiCGSTAB: iteration limit (0 = none; only symmetric matrices are run without one)
 	HasFwd  bool    `json:"hasFwd"`  // Cholesky: Apply (A * X) reported
 	Fwd     [][]int `json:"fwd"`
 	FwdEx   bool    `json:"fwdEx"`
@@ -710,6 +711,14 @@ func k17Lin(c k17LinCase, emit func(any)) {
 	case "bicg":
 		rec := base
 		rec.Site = "numerical.BiCGSTABSolver.SolveLinearSystem"
+		for i := range c.A {
+			for j := range c.A {
+				if c.A[i][j] != c.A[j][i] {
+					// BiCGSTAB may break down on a non-symmetric system: bound the iterations
+					rec.MaxIt = 100 * c.N
+				}
+			}
+		}
 		var sol [][]float64
 		rec.Outcome, rec.Panic = withDeadline(5*time.Second, func() {
 			sp := k17Sparse(c.A)
@@ -717,7 +726,7 @@ func k17Lin(c k17LinCase, emit func(any)) {
 			for i := range b {
 				b[i] = float64(c.B[i][0])
 			}
-			solver := &numerical.BiCGSTABSolver{MAETolerance: k17BicgTol}
+			solver := &numerical.BiCGSTABSolver{MAETolerance: k17BicgTol, MaxIters: rec.MaxIt}
 			x := solver.SolveLinearSystem(sp.Apply, b, nil)
 			mae := 0.0
 			for _, r := range sp.Apply(x).Sub(b) {
